@@ -17,6 +17,7 @@ command's JSON input alternates raw UTF-8 and \\uXXXX escapes; for the comma bot
 `@dsv(",")` are used.  A non-zero exit status of either command counts as "does not yield the array".
 """
 import json
+import os
 import concurrent.futures
 import vlib
 
@@ -77,9 +78,11 @@ def run_pair(cli, k, case):
 def run(ctx):
     q = ctx.quick
     for cfg in (["quick", "quick2"] if q else ["quick", "quick2", "thorough", "thorough2", "thorough3"]):
+        if os.environ.get("VERIF_DEV_SKIP_MODEL"):      # development only (mutation runs against the code)
+            break
         vlib.model_check(ctx, "MC_DsvFormat.tla", "MC_DsvFormat_%s.cfg" % cfg, workers=6, timeout=3000)
 
-    res = vlib.tlc(ctx, "Gen_DsvFormat.tla", "Gen_DsvFormat.cfg", workers=1, simulate="num=%d" % (400 if q else 4000),
+    res = vlib.tlc(ctx, "Gen_DsvFormat.tla", "Gen_DsvFormat.cfg", workers=1, simulate="num=%d" % (160 if q else 1500),
                    depth=200, seed=ctx.seed, timeout=1800)
     seen, cases = set(), []
     for ln in res.printed("REPLAY"):
@@ -104,7 +107,7 @@ def run(ctx):
 
     cli = vlib.cli_bin()
     t0 = vlib.time.time()
-    with concurrent.futures.ThreadPoolExecutor(max_workers=4) as ex:
+    with concurrent.futures.ThreadPoolExecutor(max_workers=6) as ex:
         evs = list(ex.map(lambda kc: run_pair(cli, kc[0], kc[1]), enumerate(cases)))
     tp = ctx.path("trace.ndjson")
     vlib.write_ndjson(tp, evs)
